@@ -436,13 +436,34 @@ def _pattern_text(prog: Program, exec_name: str) -> Optional[str]:
     if not sym or sym[0] != "const" or not isinstance(sym[1], ast.Call):
         return None
     a = sym[1].args[0] if sym[1].args else None
-    if isinstance(a, ast.Name):
-        s2 = mod.symbols.get(a.id)
-        if s2 and isinstance(s2[1], ast.Constant):
-            return s2[1].value
-    if isinstance(a, ast.Constant):
-        return a.value
-    return None
+
+    def text(e, depth=0) -> Optional[str]:
+        """A pattern text written as literals, module constants and their concatenation."""
+        if depth > 6 or e is None:
+            return None
+        if isinstance(e, ast.Constant):
+            return e.value if isinstance(e.value, str) else None
+        if isinstance(e, ast.Name):
+            s2 = mod.symbols.get(e.id)
+            return text(s2[1], depth + 1) if s2 and s2[0] == "const" else None
+        if isinstance(e, ast.BinOp) and isinstance(e.op, ast.Add):
+            l_, r_ = text(e.left, depth + 1), text(e.right, depth + 1)
+            return None if l_ is None or r_ is None else l_ + r_
+        if isinstance(e, ast.JoinedStr):
+            parts = []
+            for v in e.values:
+                if isinstance(v, ast.Constant):
+                    parts.append(v.value)
+                elif isinstance(v, ast.FormattedValue) and v.format_spec is None and v.conversion == -1:
+                    t_ = text(v.value, depth + 1)
+                    if t_ is None:
+                        return None
+                    parts.append(t_)
+                else:
+                    return None
+            return "".join(parts)
+        return None
+    return text(a)
 
 
 def _header_field(st: ast.Assign) -> Optional[str]:
